@@ -425,6 +425,12 @@ struct DWorld : World {
 				st.hit(did ? "probe:cxx_dispatch_copied" : "probe:cxx_dispatch_not_copyable");
 				outcome = did; break;
 			} else {
+				if (fallback && (op.c % 9) == 2) {
+					// the fallback handler that is installed is installed again (same function, same argument): it stays, and is told nothing
+					{ Sut s; D->set_error(handler, fallback); }
+					log.ev("SET_ERR rec #%d again", fallback->index); st.hit("probe:fallback_installed_again");
+					outcome = 1; break;
+				}
 				Rec *r = new_rec(0, op.b, true); if (r->reenter != 3) r->reenter = 0;      // (a fallback handler may emit from its end-of-life notification, nothing else)
 				Rec *old = fallback;
 				r->registered = true;      // (before the call: the old handler's end-of-life notification may emit, and the event then belongs to the new one)
